@@ -51,6 +51,25 @@ MARKUP = {
 }
 
 
+# numbers in markup: huge values and values too long for int() (a digit string above CPython's 4300-digit limit raises ValueError)
+N11, N5000 = "99999999999", "9" * 5000
+MARKUP["bignum"] = [
+    "&#" + N5000 + ";", "&#x" + "F" * 5000 + ";",
+    '<pages index="T" from=1 to=2 />', '<pages index="x" from=1 to=99999999 />', '<pages index=T from=1 to=' + N5000 + ' />', '<pages index=T from=' + N11 + ' to=' + N11 + '9 />',
+    "<imagemap>\nFile:a.png\nrect " + N5000 + " 1 2 3 [[A]]\n</imagemap>", "<imagemap>\nFile:a.png\ncircle " + N11 + " 1 " + N11 + " [[A]]\n</imagemap>",
+    "[[File:a.png|" + N11 + "px]]", "[[File:a.png|" + N5000 + "px]]", "[[File:a.png|thumb|upright=" + N11 + "]]", "[[File:a.png|" + N11 + "x" + N11 + "px|c]]",
+    "<gallery widths=" + N11 + " perrow=" + N11 + ">\nFile:a.png|c\n</gallery>", "<gallery perrow=" + N5000 + ">\nFile:a.png\n</gallery>",
+    "\n{|\n| colspan=" + N11 + " | a\n| rowspan=" + N11 + " | b\n|}", "\n{|\n| colspan=" + N5000 + " | a\n|-\n| rowspan=" + N5000 + " | b\n|}",
+    "<td colspan=" + N11 + ">", "<ol start=" + N11 + "><li>a</li></ol>", "<li value=" + N5000 + ">", "<font size=" + N11 + ">", "<font size=" + N5000 + ">",
+    '<div style="width:' + N11 + 'px;height:' + N5000 + 'em">', '<span style="font-size:' + N11 + '%">', "<hr width=" + N11 + ">",
+    "{{padleft:x|" + N11 + "}}", "{{#expr:" + N5000 + "}}", "{{#time:Y|" + N11 + "}}", "{{formatnum:" + N5000 + "}}", "{{#titleparts:a/b|" + N11 + "|" + N5000 + "}}",
+    "<ref name=" + N5000 + "/>", "<timeline>\nImageSize = width:" + N11 + " height:" + N5000 + "\n</timeline>", "<math>" + N5000 + "</math>",
+    # attribute values that are all digits (the attribute parser turns them into int)
+    "<div class=2024>", '<div class="7">x</div>', "<span id=5>", "<table class=1><tr><td id=2>x", "<div style=3>", '<p lang="0">', "<ol type=1><li>a", '<span title="42">',
+    "\n{| class=3\n|- id=4\n| x\n|}", "<ref name=1>x</ref><ref name=1/>", "<font color=0>", "<div align=9>",
+    "<source lang=c start=" + N11 + " line>x</source>", "<br clear=" + N11 + ">", "<table border=" + N5000 + "><tr><td>x",
+]
+
 # constructs that switch individual tree-cleaner passes on (read off the passes' own conditions)
 MARKUP["trigger"] = [
     "[http://x.org/w?action=edit e]", "[http://x.org/w/index.php?title=A&action=edit]",
@@ -69,6 +88,10 @@ MARKUP["trigger"] = [
     "{|\n|\n{|\n| " + "word " * 150 + "|| b\n|-\n| c || d\n|}\n|}\n",
     '<div id="region_list"><center>\n{|\n|a\n|}\n</center></div>',
     "\n{|\n|a\n|" + ("\n\n" + "dolor sit amet " * 30) * 8 + "\n|-\n|c||d\n|}",
+    "\n{|\n|a\n|" + ("<br/>" + "dolor sit amet " * 30 + "<br/>\n\n") * 8 + "\n|-\n|c||d\n|}",
+    "\n{|\n|<br/>" + ("lorem ipsum " * 40 + "\n\n<br/>") * 7 + "\n|b<br/>\n|}",
+    "\n{|\n|-\n| item\n| " + "<br/>".join(["lorem ipsum dolor sit amet " * 12] * 6) + "<br/>\n|}",
+    "\n{|\n|-\n| <br/>" + "<br/>".join(["lorem ipsum dolor sit amet " * 12] * 7) + "\n| x<br/>y\n|}",
     "\n{|\n|" + "\n".join("* item %d %s" % (i, "text " * 20) for i in range(30)) + "\n|x\n|}",
     '\n{| class="navbox"\n|a\n|b\n|}', '\n{| class="mp-upper"\n|a\n|b\n|}', '\n{| class="infobox"\n|a\n|}',
     "<ref>[[A]] and [[A]]</ref>", "<ref name=n>x</ref><ref name=n/>", "<ref name=n/><ref name=n>late</ref>",
